@@ -372,6 +372,7 @@ def check(run, prog, tier):
 
     # ---------------------------------------------------------------- C01-f
     STACKCHK = ("CHECK_AND_PUSH", "STACK_CHECK", "CHECK_STACK_OVERFLOW")
+    C01F_CG = [None]
     for f in funcs:
         ordn = {}
         checks = [bid for bid in f.reachable() if f.branch_cond(bid) is not None and any(m in STACKCHK for x in walk(f.branch_cond(bid)) for m in (x.get("m") or ()))]
@@ -407,6 +408,22 @@ def check(run, prog, tier):
                     if (sg is None or f.dominates(sg[0], b2.id)) and n2["fn"] != "free_string_svalue":
                         popped = True
             ok = guarded or popped
+            reserved = None
+            if not ok and f.static:
+                # a static helper whose every call site is dominated, in the caller, by a stack-space check: the caller
+                # reserved the slots up front (it cannot raise at this point); that the stack is balanced between the
+                # reservation and the call is not decided here
+                if C01F_CG[0] is None:
+                    import callgraph as _cgm
+                    C01F_CG[0] = _cgm.CallGraph(prog)
+                sites = C01F_CG[0].sites.get(f.name, [])
+                def caller_checks(g):
+                    return [bid for bid in g.reachable() if g.branch_cond(bid) is not None and (any(m in STACKCHK for x in walk(g.branch_cond(bid)) for m in (x.get("m") or ())) or "end_of_stack" in show(g.branch_cond(bid)))]
+                if sites and all(any(g.dominates(c, b2.id) for c in caller_checks(g)) for g, b2, i2, n2 in sites):
+                    reserved = sorted({g.name for g, b2, i2, n2 in sites})
+            if reserved:
+                run.ob("C01-f", inst, None, "%s — the callers (%s) reserve the slots with a stack-space check before they call this helper; stack balance between the reservation and the call is not decided" % (show(n), ", ".join(reserved)), f.file, n.get("l"), f.name)
+                continue
             run.ob("C01-f", inst, ok, "%s — %s" % (show(n), "stack-space check dominates" if guarded else ("a pop precedes it (net non-increasing)" if popped else "no stack-space check and no preceding pop")),
                    f.file, n.get("l"), f.name, what="%s pushes onto the value stack without checking for space (the stack has only a few slots of slack past end_of_stack)" % (f.name + label))
 
